@@ -93,7 +93,8 @@ func (m *Machine) scalarSort(t types.Type) sym.Sort {
 
 func (m *Machine) EmptyText() Text {
 	z := m.IntC(0)
-	return Text{z, z, z, z, z}
+	e := ""
+	return Text{z, z, z, z, z, &e}
 }
 
 // ZeroValue of type t as a register/cell value (composites for struct/array).
